@@ -27,6 +27,7 @@ type verifyCtx struct {
 	headers []*ssa.BasicBlock
 	bodies  map[*ssa.BasicBlock]map[*ssa.BasicBlock]bool
 	active  map[*State][]*loopAct
+	sitesSeen map[string]bool
 }
 
 func (v *verifyCtx) loopOrd(b *ssa.BasicBlock) int {
@@ -460,7 +461,7 @@ func (x *Exec) verifyCase(fn *ssa.Function, c *FnContract, caseExpr string, op i
 			argv = append(argv, x.sym(st, p.Type(), p.Name()))
 		}
 	}
-	ctx := &verifyCtx{fn: fn, c: c, args: argv, headers: loopHeaders(fn), bodies: map[*ssa.BasicBlock]map[*ssa.BasicBlock]bool{}}
+	ctx := &verifyCtx{fn: fn, c: c, args: argv, headers: loopHeaders(fn), bodies: map[*ssa.BasicBlock]map[*ssa.BasicBlock]bool{}, sitesSeen: map[string]bool{}}
 	for _, h := range ctx.headers {
 		ctx.bodies[h] = loopBody(h)
 	}
@@ -557,6 +558,11 @@ func (x *Exec) verifyCase(fn *ssa.Function, c *FnContract, caseExpr string, op i
 		}
 	}
 	_ = panicConds
+	for site := range c.SiteAsserts {
+		if !ctx.sitesSeen[site] {
+			fail("UNDECIDED: call site %s named by an 'at' clause of %s was not reached (renamed or removed?)", site, name)
+		}
+	}
 	// obligations with the same name (same clause / site reached along several paths) are one obligation
 	byName := map[string]int{}
 	var merged []Oblig
@@ -680,6 +686,18 @@ func (x *Exec) diffFrame(post *State, o *Object, path []PathElem, pv, qv Value, 
 // ---- modular call: assert pre, havoc assigns, assume post ----
 func (x *Exec) applyContract(st *State, fn *ssa.Function, c *FnContract, args []Value, site string) []Outcome {
 	x.Modular[fnName(fn)]++
+	{
+		var ts []*Term
+		for _, a := range args {
+			switch av := a.(type) {
+			case Scalar:
+				ts = append(ts, av.T)
+			case StrV:
+				ts = append(ts, av.T)
+			}
+		}
+		st.Events = append(st.Events, Event{Guard: True(), Callee: fnName(fn), Args: ts})
+	}
 	if !c.HasAssigns {
 		fail("modular contract of %s needs an assigns clause", c.Key)
 	}
